@@ -99,7 +99,10 @@ the exit status, the destination afterwards and the number of files left behind 
 def handleS08 (toks : List String) : String :=
   let go (so src dest : String) (lim : Option (Option Nat)) : String :=
     -- `nu8:`: the destination's name is not valid UTF-8 — irrelevant to what compile does
-    let dest := if dest.startsWith "nu8:" then (dest.drop 4).toString else dest
+    -- `long:` a 255-byte name; `lnkrel:` / `lnkabs:` a symbolic link (live or dangling) — the
+    -- destination as read through the given path afterwards is what the model describes
+    let dest := (["nu8:", "long:", "lnkrel:", "lnkabs:"].foldl
+      (fun d pre => if d.startsWith pre then (d.drop pre.length).toString else d) dest)
     let d : Option Dest :=
       if dest == "absent" then some (.file none)
       else if dest == "devfull" then some .devFull
